@@ -125,6 +125,12 @@ def make_world(env, rng, kind, lb_params=None, open_delay=None, get_servers_dela
       self.close_steps.append(w.step)
       self._state = CLOSED
       env.emit('chan.close', inc=self.inc)
+      if w.close_fails_inflight and self.inflight:
+        # like the multiplexed transports: closing fails what is in flight, synchronously, from
+        # inside Close() - the completions re-enter the balancer that is closing the channel
+        w.closed_with_inflight += 1
+        for r_ in list(self.inflight):
+          w.complete(r_, 'closed')
       if self.close_raises:
         # closing a connection whose peer is already gone may report an error
         self.close_raises = False
@@ -250,6 +256,8 @@ def make_world(env, rng, kind, lb_params=None, open_delay=None, get_servers_dela
       self.notify('leave', m)
   w.ss = Scripted()
   w.callback_errors = []
+  w.close_fails_inflight = False
+  w.closed_with_inflight = 0
 
   from scales.loadbalancer.heap import HeapBalancerSink
   from scales.loadbalancer.aperture import ApertureBalancerSink
